@@ -336,23 +336,25 @@ func tpRepeat(args []string) error {
 		rng := newRand(int64(1000 + i))
 		files := tpGenFiles(rng, dir, i, false)
 		r.Inputs++
-		for _, format := range []string{"text", "csv"} {
-			var ref []byte
-			for k, gp := range []string{"1", "2", "16", "4", "1"} {
-				cmd := exec.Command(bin, append([]string{"-format", format}, files...)...)
-				cmd.Env = append(os.Environ(), "GOMAXPROCS="+gp)
-				out, err := cmd.CombinedOutput()
-				if err != nil {
-					return fmt.Errorf("benchstat: %v\n%s", err, out)
-				}
-				r.Runs++
-				if k == 0 {
-					ref = out
-					if r.Sample == "" {
-						r.Sample = string(out)
+		for _, flags := range [][]string{nil, {"-row", ".name,/k", "-col", "goos"}, {"-table", "goos,cpu", "-row", ".name,/x,/k"}} {
+			for _, format := range []string{"text", "csv"} {
+				var ref []byte
+				for k, gp := range []string{"1", "2", "16", "4", "1", "8", "3"} {
+					cmd := exec.Command(bin, append(append([]string{"-format", format}, flags...), files...)...)
+					cmd.Env = append(os.Environ(), "GOMAXPROCS="+gp)
+					out, err := cmd.CombinedOutput()
+					if err != nil {
+						return fmt.Errorf("benchstat: %v\n%s", err, out)
 					}
-				} else if !bytes.Equal(ref, out) {
-					r.Failures = append(r.Failures, fmt.Sprintf("input %d format %s: output with GOMAXPROCS=%s differs from GOMAXPROCS=1", i, format, gp))
+					r.Runs++
+					if k == 0 {
+						ref = out
+						if r.Sample == "" {
+							r.Sample = string(out)
+						}
+					} else if !bytes.Equal(ref, out) {
+						r.Failures = append(r.Failures, fmt.Sprintf("input %d flags %v format %s: run %d (GOMAXPROCS=%s) differs from the first run", i, flags, format, k, gp))
+					}
 				}
 			}
 		}
@@ -397,7 +399,13 @@ func tpGenFiles(rng *rand.Rand, dir string, i int, permute bool) []string {
 		var sb strings.Builder
 		nblocks := 1 + rng.Intn(3)
 		for b := 0; b < nblocks; b++ {
-			fmt.Fprintf(&sb, "goos: os%d\npkg: p\n\n", b)
+			fmt.Fprintf(&sb, "goos: os%d\npkg: p\n", b)
+			if rng.Intn(2) == 0 {
+				fmt.Fprintf(&sb, "cpu: c%d\n", rng.Intn(2)) // a key only some blocks have
+			} else if b > 0 {
+				sb.WriteString("cpu:\n")
+			}
+			sb.WriteString("\n")
 			var lines []string
 			order := rng.Perm(len(names))
 			for _, ni := range order {
